@@ -24,6 +24,7 @@ type Obligation struct {
 	Desc   string
 	Index  int // position in Items
 	Excuse string
+	Finding bool // listed in known_findings.txt
 }
 
 type Item struct {
@@ -49,6 +50,7 @@ type FnVC struct {
 	EntryHeap *Heap
 	ModelQ    []string // terms worth querying in a model
 	Cases     []string // case split (terms over the entry state)
+	Axioms    []string // definitional axioms assumed
 }
 
 type placeKind int
@@ -136,6 +138,7 @@ type Tr struct {
 	vc            *FnVC
 	sliceConstLen map[string]int64
 	topFrame      *frame
+	addrSeen      map[string]bool
 }
 
 func (tr *Tr) raw(s string) { tr.vc.Items = append(tr.vc.Items, Item{Text: s}) }
@@ -172,6 +175,9 @@ func (tr *Tr) oblige(fr *frame, kind, label, prop, reach, f string, pos token.Po
 	if pos.IsValid() {
 		p := tr.G.prog.Fset.Position(pos)
 		ob.Pos = fmt.Sprintf("%s:%d", strings.TrimPrefix(p.Filename, tr.G.repoDir+"/"), p.Line)
+	}
+	if f := tr.G.findings[name]; f != nil {
+		ob.Finding = true
 	}
 	if f := tr.G.findings[name]; f != nil && f.Excuse != "" && f.Excuse != "true" && tr.topFrame != nil {
 		s, err := parseSpec(f.Excuse)
@@ -215,13 +221,26 @@ func shortFuncName(f *ssa.Function) string {
 
 // ---------- places ----------
 
+// addr is the address of a by-value member (nested struct or array) of the object at base.
+// Ground facts, emitted once per term: never nil, injective, distinct per member, and disjoint from
+// allocated references (member addresses live in the negative integers).
+func (tr *Tr) addr(structKey, field, base string) string {
+	fn := tr.C.addrFn(structKey, field)
+	t := app(fn, base)
+	if !tr.addrSeen[t] {
+		tr.addrSeen[t] = true
+		tr.raw(fmt.Sprintf("(assert (and (< %s 0) (= (%s!inv %s) %s) (= (addrtag %s) %d)))", t, fn, t, base, t, tr.C.addrTag[fn]))
+	}
+	return t
+}
+
 func (tr *Tr) fieldPlace(ref string, T types.Type, st *types.Struct, i int) *Place {
 	ft := st.Field(i).Type()
 	switch u := ft.Underlying().(type) {
 	case *types.Struct:
-		return &Place{kind: plObj, ref: app(tr.C.addrFn(structKey(T, st), fieldName(st, i)), ref), ty: ft}
+		return &Place{kind: plObj, ref: tr.addr(structKey(T, st), fieldName(st, i), ref), ty: ft}
 	case *types.Array:
-		return &Place{kind: plArr, key: tr.C.elemKey(tr.C.sortOf(u.Elem())), ref: app(tr.C.addrFn(structKey(T, st), fieldName(st, i)), ref), ty: ft}
+		return &Place{kind: plArr, key: tr.C.elemKey(tr.C.sortOf(u.Elem())), ref: tr.addr(structKey(T, st), fieldName(st, i), ref), ty: ft}
 	}
 	return &Place{kind: plField, key: tr.C.fieldKey(T, st, i), ref: ref, ty: ft}
 }
@@ -305,13 +324,12 @@ func (tr *Tr) wf(v Val) string {
 		lim := bvI(1<<48, 64)
 		return and(app("bvsle", z, app("s.len", v.T)), app("bvsle", app("s.len", v.T), app("s.cap", v.T)),
 			app("bvsle", z, app("s.off", v.T)), app("bvslt", app("s.cap", v.T), lim), app("bvslt", app("s.off", v.T), lim),
-			app(">=", app("s.arr", v.T), "0"),
 			implies(eq(app("s.arr", v.T), "0"), eq(app("s.cap", v.T), z)))
 	case *types.Basic:
 		if isString(v.Ty) {
 			return and(app("bvsle", bvI(0, 64), app("slen", v.T)), app("bvslt", app("slen", v.T), bvI(1<<48, 64)))
 		}
-	case *types.Pointer, *types.Map, *types.Chan, *types.Signature:
+	case *types.Map, *types.Chan, *types.Signature:
 		return app(">=", v.T, "0")
 	case *types.Interface:
 		return and(app(">=", app("i.typ", v.T), "0"), implies(eq(app("i.typ", v.T), "0"), eq(app("i.val", v.T), "0")))
@@ -438,7 +456,7 @@ func (tr *Tr) unboxIface(x string, t types.Type) Val {
 func (g *Global) genVC(fn *ssa.Function, contract *Contract) (vc *FnVC) {
 	C := newCtx()
 	vc = &FnVC{Fn: fn, Contract: contract, Ctx: C, Inlined: map[string]int{}, Unknown: map[string]int{}, Abstract: map[string]int{}, UsedContr: map[string]bool{}}
-	tr := &Tr{G: g, C: C, vc: vc, sliceConstLen: map[string]int64{}}
+	tr := &Tr{G: g, C: C, vc: vc, sliceConstLen: map[string]int64{}, addrSeen: map[string]bool{}}
 	defer func() {
 		if r := recover(); r != nil {
 			if ve, ok := r.(vcErr); ok {
@@ -506,6 +524,18 @@ func (g *Global) genVC(fn *ssa.Function, contract *Contract) (vc *FnVC) {
 				vfail("%s: requires #%d: %v", fn, i, err)
 			}
 			tr.assume("true", t)
+		}
+		for _, u := range contract.Uses {
+			ax := g.contracts.Preds[contract.PkgPath+".axiom "+u]
+			if ax == nil {
+				vfail("%s: uses unknown axiom %s", fn, u)
+			}
+			t, err := env.evalBool(ax.Body)
+			if err != nil {
+				vfail("%s: axiom %s: %v", fn, u, err)
+			}
+			tr.assume("true", t)
+			vc.Axioms = append(vc.Axioms, u+": "+ax.Text)
 		}
 		// vacuity guard: the precondition must be satisfiable
 		ob := tr.oblige(fr, "vacuity", "requires-sat", "", "true", "false", fn.Pos(), "precondition and type invariants are satisfiable (expects sat)")
